@@ -123,9 +123,11 @@ class ComputationCache:
             comp(only)
             # Mark individual as no longer changed.
             self._chromosome.changed = False
-        elif len(cache) != len(funcs):
-            # The individual has not changed, but not all values are cached.
-            # So we might have to compute the missing ones.
+        else:
+            # The individual has not changed, but maybe not all values are cached.
+            # So we might have to compute the missing ones.  The sizes of the cache
+            # and the function list tell nothing: the cache may also hold values of
+            # functions that are not in the list.
             comp(only)
 
     def _compute_fitness(self, only: FitnessFunction | None = None):
